@@ -70,6 +70,16 @@ func scenarios(c *vlib.Ctx) []*slib.Scn {
 					}
 				}
 			}
+			// two faulty callbacks in different modules (same phase, and start+stop)
+			if n >= 2 {
+				for m1 := 0; m1 < n; m1++ {
+					for m2 := m1 + 1; m2 < n; m2++ {
+						for _, f := range [][2]string{{"start:err", "start:err"}, {"start:err", "start:panic"}, {"prep:err", "prep:err"}, {"stop:err", "stop:err"}, {"stop:panic", "stop:err"}, {"start:err", "stop:err"}, {"stop:err", "start:err"}} {
+							add(modules.C01Params{N: n, Deps: g, Fault: fmt.Sprintf("%d:%s+%d:%s", m1, f[0], m2, f[1]), Pts: 0}, vlib.Pick(c, 1, 2))
+						}
+					}
+				}
+			}
 			// module management: every initial enabled set, one further round with every enabled set
 			if n <= 2 || len(g) >= 1 {
 				for s1 := 0; s1 < 1<<n; s1++ {
@@ -93,7 +103,7 @@ func scenarios(c *vlib.Ctx) []*slib.Scn {
 func main() {
 	vlib.Main("C01", "model_checking", func(c *vlib.Ctx) {
 		c.Rule("stateless exploration of all interleavings within a deviation bound of the real modules+log packages (source-instrumented); " +
-			"scenarios = all dependency graphs on <=3 modules x {no fault, one prep/start/stop callback returning an error or panicking} and x module-management histories (every initial enabled set, one further round with every other set) ; history = Start [-> ManageModules rounds] -> Shutdown; " +
+			"scenarios = all dependency graphs on <=3 modules x {no fault, one prep/start/stop callback returning an error or panicking, two faulty callbacks in different modules} and x module-management histories (every initial enabled set, one further round with every other set) ; history = Start [-> ManageModules rounds] -> Shutdown; " +
 			"distinct_nontrivial = distinct observation traces (callback begin/end order) per scenario")
 		c.Assume("sequential consistency; data-race freedom outside the instrumented synchronisation operations; map iteration order over the module registry is fixed ascending (descending in thorough)")
 		slib.Run(c, scenarios(c), slib.Opts{})
